@@ -209,29 +209,13 @@ BASIC_TYPE:
 		t = reflect.TypeOf((*datatype.Unsigned64)(nil)).Elem()
 	case datatype.GroupedType:
 		if field.Kind() == reflect.Struct {
-			// GroupedAVP
-			gAVP := &GroupedAVP{}
-			for n := 0; n < field.NumField(); n++ {
-				f := field.Field(n)
-				bt := field.Type().Field(n)
-				avpname, omitEmpty := parseAvpTag(bt.Tag)
-				if len(avpname) == 0 || (omitEmpty && isEmptyValue(f)) {
-					// TODO: check the required attribute in AVP rule?
-					continue
-				}
-				// Lookup the AVP name (tag) in the dictionary, the dictionary AVP has the code.
-				// Relies on the fact that in the same app will not be AVPs with same code but different vendorId
-				d, err := m.Dictionary().FindAVP(m.Header.ApplicationID, avpname)
-				if err != nil {
-					return err, nil
-				}
-				err, avp := marshal(m, f, d)
-				if err != nil {
-					return err, nil
-				}
-				gAVP.AVP = append(gAVP.AVP, avp...) // gAVP.AddAVP()
+			// GroupedAVP: its members are the fields of the struct,
+			// those of embedded structs included.
+			err, members := marshalStruct(m, field)
+			if err != nil {
+				return err, nil
 			}
-			data = gAVP
+			data = &GroupedAVP{AVP: members}
 		} else if field.Kind() == reflect.Slice {
 			// when code run here, we are certain that it is datatype.Grouped AVP
 			// like "Failed-AVP", all we need to do is assigning the []byte slibe
